@@ -133,7 +133,7 @@ class LinkWorld:
         from glue.core.component_link import ComponentLink
         self.coef['a3'] = (float(k + 1), float(10 * (k + 1)))
         a3 = ComponentID('a3', parent=self.D['A'])
-        self.D['A'].add_component_link(ComponentLink([self.cid['a1']], a3, using=self.fn('a1', 'a3')))
+        self.D['A'].add_component_link(ComponentLink([self.cid['a1']], a3, using=self.fn('a1', 'a3'), inverse=self.fn('a3', 'a1')))
         self.cid['a3'] = a3
         self.dependants = {'a1': ['a3']}
         self.dc = DataCollection([self.D['A'], self.D['B'], self.D['C']])
@@ -254,6 +254,7 @@ class LinkWorld:
         # the links inside member datasets count as well: whoever reaches a1 reaches the attribute computed from it
         if 'a1' in self.cid and 'a3' in self.cid and any(x is self.D['A'] for x in self.dc):
             edges.append((('a1',), 'a3'))
+            edges.append((('a3',), 'a1'))          # the internal link is invertible: whoever reaches a3 reaches a1 as well
         out = {}
         for d in self.dc:
             own = set(c.label for c in list(d.main_components) + list(d.derived_components) if c.label in self.coef)
